@@ -4558,7 +4558,7 @@ ALL = [
          bounds="trees of 1, 4 and 6 nodes (thorough: 8); every node arbitrarily finished / pending its children / nothing; hooks present on every pending node",
          assumptions=["process_node, the hooks and the reducers are scripted and observed; they succeed",
                       "Box / Vec / vec![x] by contract"],
-         replay=lambda fd, vals, info: {"harness": "m_frag_nested", "values": [[0]]}),
+         replay=lambda fd, vals, info: {"harness": "m_ol_numbering", "values": [le_bytes(1, 8), le_bytes(3, 8)]}),
     Spec("link_footnotes", ["C08"], spec_link_footnotes,
          functions=["TextRenderer::start_link", "TextRenderer::end_link"],
          bounds="0-2 links already recorded; footnote flag symbolic",
